@@ -2596,6 +2596,7 @@ class QuicConnection:
         """
         if (
             self._is_client
+            and self._state == QuicConnectionState.FIRSTFLIGHT
             and not self._retry_count
             and header.destination_cid == self.host_cid
             and header.integrity_tag
